@@ -283,6 +283,14 @@ def applyOpX (t : Tab) : OpX → Except Err (Tab × Option (Bool × Bool))
       .ok (r.1, some (r.2.1, r.2.2 ≠ 0))
     else .error .assertion
 
+/-- `tensor(list_of_tables)`: the list is folded into its first element, one `tensor2` step per further factor -/
+def tensorList (t : Tab) (ts : List Tab) : Tab := ts.foldl tensor2 t
+
+/-- `Stabilizer.trace_out_qubits(positions)` / `MixedStabilizer.trace_out_qubits` (state.py, after the repair D54):
+    `partial_trace` with `keep` = the qubits NOT listed, in increasing order -/
+def traceOutQubits (t : Tab) (positions : List Nat) (os : List Bool) : Except Err Tab :=
+  t.partialTrace ((List.range t.n).filter fun q => !positions.contains q) os
+
 /-- a history of extended API calls -/
 def runOpsX (t : Tab) : List OpX → Except Err Tab
   | [] => .ok t
